@@ -158,6 +158,9 @@ def _build(nfa, seq, nxt, flags, state):
         elif op is sre_c.AT:
             if av in (sre_c.AT_BEGINNING, sre_c.AT_BEGINNING_STRING) and not (flags & re.MULTILINE):
                 nxt = nfa.new(("bos", nxt))
+            elif av in (sre_c.AT_END, sre_c.AT_END_STRING) and not (flags & re.MULTILINE) and getattr(nfa, "allow_eos", False):
+                # `$`: end of input (CPython also accepts it before a final newline - callers restrict the alphabet to exclude "\n")
+                nxt = nfa.new(("eos", nxt))
             else:
                 raise Unsupported(f"assertion {av}")
         else:
@@ -234,6 +237,85 @@ class Pattern:
             if flag:
                 end = i + 1
         return end
+
+
+class WholeMatch:
+    """`bool(re.match(pattern, w))` for a pattern that may use `$`: backtracking tries every alternative until one succeeds, so the
+    answer is plain membership (no priorities): w is accepted iff some path through the NFA consumes w and reaches the end, `$`
+    edges being passable only when the input is exhausted.  Same interface as Pattern for `compare` (flag = w accepted as a whole)."""
+
+    def __init__(self, pattern, flags=0):
+        self.text = pattern
+        tree = sre_parse.parse(pattern, flags)
+        self.flags = tree.state.flags
+        self.compiled = re.compile(pattern, flags)
+        self.nfa = NFA()
+        self.nfa.allow_eos = True
+        self.acc = self.nfa.new(("acc",))
+        self.start = _build(self.nfa, tree, self.acc, self.flags, tree.state)
+        # a plain `match` (no `$`) succeeds on any extension of a matched prefix: only patterns anchored at the end describe whole strings
+        self.anchored = self._always_eos()
+
+    def _always_eos(self):
+        # every path from start to accept passes an eos edge: search for an accept reachable without one
+        seen, todo = set(), [self.start]
+        while todo:
+            s = todo.pop()
+            if s in seen:
+                continue
+            seen.add(s)
+            k = self.nfa.kind[s]
+            if k[0] == "acc":
+                return False
+            if k[0] == "eps":
+                todo.extend(k[1])
+            elif k[0] in ("bos",):
+                todo.append(k[1])
+            elif k[0] == "chr":
+                todo.append(k[2])
+        return True
+
+    def _closure(self, seeds, at_start):
+        seen, todo = set(), list(seeds)
+        while todo:
+            s = todo.pop()
+            if s in seen:
+                continue
+            seen.add(s)
+            k = self.nfa.kind[s]
+            if k[0] == "eps":
+                todo.extend(k[1])
+            elif k[0] == "bos" and at_start:
+                todo.append(k[1])
+        core = frozenset(s for s in seen if self.nfa.kind[s][0] in ("chr", "eos", "acc"))
+        # accepted as a whole: accept reachable through eos / eps edges from here
+        ends, todo2 = set(), [s for s in core if self.nfa.kind[s][0] in ("eos", "acc")]
+        flag = False
+        while todo2:
+            s = todo2.pop()
+            if s in ends:
+                continue
+            ends.add(s)
+            k = self.nfa.kind[s]
+            if k[0] == "acc":
+                flag = True
+            elif k[0] == "eos":
+                todo2.append(k[1])
+            elif k[0] == "eps":
+                todo2.extend(k[1])
+        return tuple(sorted(s for s in core if self.nfa.kind[s][0] == "chr")), flag
+
+    def initial(self):
+        return self._closure([self.start], True)
+
+    def step(self, threads, cp):
+        return self._closure([self.nfa.kind[s][2] for s in threads if cp in self.nfa.atoms[self.nfa.kind[s][1]]], False)
+
+    def accepts(self, w):
+        threads, flag = self.initial()
+        for c in w:
+            threads, flag = self.step(threads, ord(c))
+        return flag
 
 
 # ------------------------------------------------------------------------------------------------------------- the spec side
